@@ -13,6 +13,7 @@ type Spec struct {
 	Rates    RateSpec   `json:"rates"`
 	Timeline []TLEvent  `json:"timeline"`
 	Explicit []ExplicitFault `json:"explicit,omitempty"`
+	StmtFail []StmtFail      `json:"stmt_fail,omitempty"`
 	// ExplicitOnly: replay/shrink mode - per-call decisions come only from Explicit
 	ExplicitOnly bool  `json:"explicit_only,omitempty"`
 	DurationMs   int64 `json:"duration_ms"`
@@ -145,6 +146,16 @@ type TLEvent struct {
 	N      int64  `json:"n,omitempty"`
 	DurMs  int64  `json:"dur_ms,omitempty"`
 	Fault  bool   `json:"fault,omitempty"` // counts as an injected fault (for HealAt bookkeeping)
+}
+
+// StmtFail: every statement with this prefix arriving at Host in [FromMs,ToMs) fails before
+// effect with Errno (0 = hangs until the caller's deadline). Models persistent MySQL-side trouble.
+type StmtFail struct {
+	Host   string `json:"host"`
+	Prefix string `json:"prefix"`
+	Errno  int    `json:"errno"`
+	FromMs int64  `json:"from_ms"`
+	ToMs   int64  `json:"to_ms"`
 }
 
 // ExplicitFault pins the decision for one call identity.
